@@ -111,5 +111,11 @@ CHECKS = {
         "text": "Images (1..24 x 6..20 and wide ones up to 710 columns with long runs; 1..1000 colours distinct at sixel's 0-100 resolution incl. exactly 255/256/257; transparent pixels over a configured background; two equal-size crops of one parent plus the parent on one handler; every image drawn twice) go through the real SixelImageHandler. TLC runs the reference interpreter over the bytes and requires one well-formed sequence, declared size (width, 6*floor(h/6)), every raster pixel painted and none outside, every used register defined with channels <= 100, pixel-for-pixel equality with the source at 0-100 resolution when it has <= 256 distinct colours, and identical bytes for the repeated draw.",
         "note": "Colour fidelity beyond 256 colours is C13's subject; only alpha 0/255 generated.",
     },
+    "C13": {
+        "level": "model_checking",
+        "technique": "TLA+ transcription of the k-d tree (median build with duplicates, branch-and-bound search) model-checked to be an arg-min for every small palette and query; real ColorPalette::find / Image::quantize results judged by TLC against the property-level Quantize spec",
+        "text": "TLC checks the code-shaped k-d tree for every palette (multiset) of <= 4 (thorough 5) points on a 3x3 grid and on the 2x2x2 cube against every query: the search result is at minimal distance and is the indexed colour. Real lookups on palettes of 1..512 colours (random, duplicated and collinear clusters, tiny grids, the crate's LCG palette; sizes around 256/257/512) with random queries and neighbours of palette points, and real quantisations (cropped views incl. small crops of large parents, k in {1,2,7,8,9,16,255,256,1000}, both dither settings, alpha 0/128/255 over two backgrounds) are judged: palette size within 1..max(k,8), index image of the same size with valid entries, nearest colour per pixel without dithering, exact reproduction when the distinct colours fit k and the view is below the sampling threshold.",
+        "note": "Octree insertion/pruning is judged only through these end-to-end bounds (no code-shaped octree model yet).",
+    },
 }
 
